@@ -173,6 +173,35 @@ fn run_captures(cursor: &mut QueryCursor, q: &Query, tree: &Tree, text: &[u8], c
     (out, ex)
 }
 
+/// The same as run_matches, but the text is handed to the predicates in several chunks per node
+/// (closure text provider), cut at positions derived from the node: exercises the chunk
+/// concatenation of `satisfies_text_predicates`.
+fn run_matches_chunked(cursor: &mut QueryCursor, q: &Query, tree: &Tree, text: &[u8], ids: &mut NodeIds) -> Vec<M> {
+    apply_cfg(cursor, &Cfg::default());
+    let rc = root_cap(q);
+    let mut out = Vec::new();
+    let provider = |n: Node| {
+        let t = &text[n.start_byte()..n.end_byte()];
+        let k = if t.len() >= 2 { 1 + (n.start_byte() % (t.len() - 1)) } else { t.len() };
+        let m = if t.len() - k >= 2 { k + 1 } else { t.len() };
+        vec![&t[..k], &t[k..m], &t[m..]].into_iter()
+    };
+    let mut it = cursor.matches(q, tree.root_node(), provider);
+    while let Some(m) = it.next() {
+        let caps: Vec<Cap> = m.captures.iter().map(|c| Cap { idx: c.index, node: ids.get(&c.node), r: rng6(&c.node) }).collect();
+        let rootn = m.captures.iter().find(|c| Some(c.index) == rc).map(|c| c.node);
+        let (root, depth, haspar, par) = match rootn {
+            Some(n) => match n.parent() {
+                Some(p) => (rng6(&n), depth_of(&n), true, rng6(&p)),
+                None => (rng6(&n), 0, false, [0; 6]),
+            },
+            None => ([0; 6], 0, false, [0; 6]),
+        };
+        out.push(M { id: m.id(), pat: m.pattern_index, root, depth, haspar, hasroot: rootn.is_some(), par, caps });
+    }
+    out
+}
+
 fn w6(s: &mut String, r: &[usize; 6]) {
     write!(s, " {} {} {} {} {} {}", r[0], r[1], r[2], r[3], r[4], r[5]).unwrap();
 }
@@ -842,6 +871,15 @@ fn emit_case(out: &mut impl Write, cid: &str, lang_id: &str, lang: &Language, pa
             st.checks += 2;
         }
     }
+    // (c') after runs with small limits: an unlimited run on the same cursor equals the fresh one,
+    // and the limit flag of the earlier runs is gone
+    {
+        let (z, exz) = run_matches(&mut cur, &q0, &tree, text, &none, &mut ids, None);
+        emit_m(out, "Z", &z);
+        writeln!(out, "chk c U Z").unwrap();
+        writeln!(out, "chk fl 0 {}", if exz { 1 } else { 0 }).unwrap();
+        st.checks += 2;
+    }
     // (e) removal mid-stream
     if !uc.is_empty() {
         let pos = rng.below(uc.len());
@@ -860,7 +898,12 @@ fn emit_case(out: &mut impl Write, cid: &str, lang_id: &str, lang: &Language, pa
         emit_c(out, "PC", &pc);
         writeln!(out, "chk f U P").unwrap();
         writeln!(out, "chk h P PC").unwrap();
-        st.checks += 2;
+        // the text provider may hand out a node's text in pieces: same result
+        let mut fc = QueryCursor::new();
+        let pk = run_matches_chunked(&mut fc, &q, &tree, text, &mut ids);
+        emit_m(out, "PK", &pk);
+        writeln!(out, "chk c P PK").unwrap();
+        st.checks += 3;
     }
     writeln!(out, "endcase").unwrap();
     st.cases += 1;
